@@ -536,8 +536,23 @@ func (e *Engine) enterBlock(fr *Frame, st *State, b, prev *ssa.BasicBlock) (bool
 		inv = fr.con.Loops[ord]
 	}
 	if len(inv) == 0 {
-		// unrolled loop
 		assign()
+		if _, symbolic := e.autoInv2(fr, st, b, phis, li.blocks[b.Index]); symbolic || st.inLoop[key] {
+			// a counting loop with a symbolic bound and no written invariant: cut it with the
+			// inferred bounds only (autoinv.go)
+			if st.inLoop[key] {
+				e.checkAutoInv(fr, st, ord, e.autoInv(fr, st, b, phis, li.blocks[b.Index]), "keep")
+				return false, true
+			}
+			e.checkAutoInv(fr, st, ord, e.autoInv(fr, st, b, phis, li.blocks[b.Index]), "init")
+			e.havocLoop(fr, st, b, phis, li.blocks[b.Index])
+			st.inLoop[key] = true
+			for _, t := range e.autoInv(fr, st, b, phis, li.blocks[b.Index]) {
+				st.assume(t)
+			}
+			return true, false
+		}
+		// unrolled loop
 		fr.visits[b.Index]++
 		if fr.visits[b.Index] > maxUnroll {
 			e.toolError("loop %d of %s needs an invariant (unrolled %d times)", ord, funcKey(fr.fn), maxUnroll)
